@@ -48,6 +48,9 @@ def ops_for(kind, k, extended=False):
     if extended:
         out += [("msbr", r) for r in range(0, k)]
         out += [("lsbr", r) for r in range(0, k)]
+        out += [("left",), ("right",)]
+        out += [("leftn", n) for n in range(1, k + 1)]
+        out += [("rightn", n) for n in range(1, k + 1)]
     return out
 
 
@@ -70,13 +73,14 @@ def apply_model(model, op):
         return ("Bit", [L[op[1]]])
     if t == "sl":
         return ("BV", L[op[2]:op[1] + 1])
-    if t == "msb":
+    # all vectors here are 'downto': left = most significant side
+    if t in ("msb", "left"):
         return ("Bit", [L[-1]])
-    if t == "lsb":
+    if t in ("lsb", "right"):
         return ("Bit", [L[0]])
-    if t == "msbn":
+    if t in ("msbn", "leftn"):
         return ("BV", L[k - op[1]:])
-    if t == "lsbn":
+    if t in ("lsbn", "rightn"):
         return ("BV", L[:op[1]])
     if t == "msbr":
         return ("BV", L[op[1]:])
@@ -134,6 +138,10 @@ def op_text(op):
         return f".msb(rest={op[1]})"
     if t == "lsbr":
         return f".lsb(rest={op[1]})"
+    if t in ("left", "right"):
+        return f".{t}()"
+    if t in ("leftn", "rightn"):
+        return f".{t[:-1]}({op[1]})"
     raise ValueError(op)
 
 
@@ -143,7 +151,8 @@ def op_key(op):
     return {"u": "unsigned", "s": "signed", "b": "bitvector", "msb": "msb()", "lsb": "lsb()"}.get(t) or (
         f"idx({op[1]})" if t == "i" else f"elem({op[1]})" if t == "ai" else f"slice({op[1]}:{op[2]})" if t == "sl" else
         f"msb({op[1]})" if t == "msbn" else f"lsb({op[1]})" if t == "lsbn" else
-        f"msb(rest={op[1]})" if t == "msbr" else f"lsb(rest={op[1]})")
+        f"msb(rest={op[1]})" if t == "msbr" else f"lsb(rest={op[1]})" if t == "lsbr" else
+        f"{t}()" if t in ("left", "right") else f"{t[:-1]}({op[1]})")
 
 
 def chain_text(chain):
@@ -155,7 +164,7 @@ def chain_key(chain):
 
 
 def is_range_op(op):
-    return op[0] in ("sl", "msbn", "lsbn", "msbr", "lsbr")
+    return op[0] in ("sl", "msbn", "lsbn", "msbr", "lsbr", "leftn", "rightn")
 
 
 def chain_class(chain):
@@ -163,8 +172,12 @@ def chain_class(chain):
     return "nested-slice" if n >= 2 else ("slice" if n == 1 else "plain")
 
 
-def chains(root_kind, W, max_len, extended=False, skip_identity_casts=True):
-    """all chains of <= max_len operations starting at a vector root; yields (chain, model)"""
+SUBSCRIPTS = ("i", "sl", "ai")
+
+
+def chains(root_kind, W, max_len, extended=False, only=None):
+    """all chains of <= max_len operations starting at a vector root; yields (chain, model).
+    only: restrict the operations to these kinds (e.g. SUBSCRIPTS = plain [i] / [h:l] subscripts)"""
     root = root_model(root_kind, W)
     frontier = [((), root)]
     yield (), root
@@ -174,6 +187,8 @@ def chains(root_kind, W, max_len, extended=False, skip_identity_casts=True):
             if m[0] == "Bit":
                 continue
             for op in ops_for(m[0], len(m[1]), extended):
+                if only is not None and op[0] not in only:
+                    continue
                 m2 = apply_model(m, op)
                 c2 = ch + (op,)
                 yield c2, m2
@@ -254,7 +269,94 @@ def apply_py(view, op):
         return view.msb(rest=op[1])
     if t == "lsbr":
         return view.lsb(rest=op[1])
+    if t == "ai":
+        return view[op[1]]
+    if t == "left":
+        return view.left()
+    if t == "right":
+        return view.right()
+    if t == "leftn":
+        return view.left(op[1])
+    if t == "rightn":
+        return view.right(op[1])
     raise ValueError(op)
+
+
+def refspec_positions(view, rootm):
+    """absolute root bit positions designated by view._ref_spec (what the backend will name in the emitted
+    text): every entry is simplified exactly like the backend does (constant base offsets folded into
+    offset / start / stop) and applied to the positions of the root.  None if not constant."""
+    from cohdl._core._type_qualifier import Offset, Slice
+
+    L = rootm[1]
+    for spec in view._ref_spec:
+        sp = spec.copy()
+        sp.base_offset = list(sp.base_offset)
+        sp.simplify()
+        if sp.base_offset:
+            return None
+        if isinstance(sp, Offset):
+            if not isinstance(sp.offset, int) or not 0 <= sp.offset < len(L):
+                return ("out of range", sp.offset)
+            L = L[sp.offset]
+            if isinstance(L, int):
+                L = [L]
+        elif isinstance(sp, Slice):
+            if not 0 <= sp.stop <= sp.start < len(L):
+                return ("out of range", sp.start, sp.stop)
+            L = L[sp.stop:sp.start + 1]
+        else:
+            return None
+    return list(L)
+
+
+def array_root(q):
+    from cohdl import Array
+
+    return qclass(_imports(), q, Array[BitVector[ARR_ELEM_W], ARR_COUNT])()
+
+
+def py_check_structure(env, q, kind, W, chain, iter_elem):
+    """cheap Python-level check of one chain (no writes): root identity, direction/qualifier, storage identity
+    (vector roots) and the bit positions designated by _root + _ref_spec against the reference model."""
+    problems = []
+    rootm = root_model(kind, W)
+    model = rootm
+    for op in chain:
+        model = apply_model(model, op)
+    if model[0] == "ARR":
+        return [], None
+    if iter_elem is not None:
+        model = ("Bit", [model[1][iter_elem]])
+    E = model[1]
+    try:
+        root = array_root(q) if kind == "ARR" else make_root(env, q, kind, W, 0)
+        v = root
+        for op in chain:
+            v = apply_py(v, op)
+        if iter_elem is not None:
+            v = list(v)[iter_elem]
+    except BaseException as e:  # noqa
+        return None, f"{type(e).__name__}: {str(e)[:100]}"
+    if v._root is not root:
+        problems.append(("root", "view._root is not the root object"))
+    if q[0] == "Port":
+        if type(v).direction() is not type(root).direction():
+            problems.append(("qualifier", "port direction not preserved"))
+    elif v.qualifier is not root.qualifier:
+        problems.append(("qualifier", f"view.qualifier is {v.qualifier}, root.qualifier is {root.qualifier}"))
+    if v.width != len(E) if model[0] != "Bit" else False:
+        problems.append(("type", f"view width {v.width}, expected {len(E)}"))
+    if kind != "ARR":
+        rb = bits_of(root)
+        vb = bits_of(v)
+        if len(vb) != len(E) or any(vb[i] is not rb[p] for i, p in enumerate(E)):
+            got = [next((j for j, b in enumerate(rb) if b is x), None) for x in vb]
+            problems.append(("storage", f"view bits are root bits {got}, expected {E}"))
+    pos = refspec_positions(v, rootm)
+    if pos != list(E):
+        problems.append(("refspec", f"_root + _ref_spec designate root bits {pos}, the view denotes bits {list(E)}"))
+    return problems, None
 
 
 def write_apis(q):
